@@ -256,3 +256,233 @@ def _ab_unit(kind):
 
 
 U_MASS_ABUNDANCE_LOOP = [_ab_unit(k) for k in ("data", "header-first", "header-next")]
+
+
+# ==============================================================================  C20: covalent_radius.init, row loop (loop 1)
+
+COV = "periodictable.covalent_radius"
+FLOAT_OF_STR = shims.FLOAT_OF_STR
+
+
+def _cov_inputs(kind):
+    def mk(st, interp):
+        use_state(st)
+        line = st.fresh("line", z3.StringSort())
+        n = {"full": 5, "short": 3, "alternate": 5}[kind]
+        fields = [st.fresh("field%d" % i, z3.StringSort()) for i in range(n)]
+        if kind == "alternate":
+            st.assume(fields[0] == z3.StringVal("-"))
+        else:
+            st.assume(z3.And(z3.InRe(fields[0], z3.Plus(z3.Range("0", "9"))), z3.Length(fields[0]) <= 3))
+
+        def split(interp_, st_, s, args):
+            if z3.eq(s, line) and not args:
+                return VList(list(fields))
+            raise Unsupported("split of an unexpected string")
+        st.ghost["str_split"] = split
+        writes = []
+        st.ghost["atom_setattr"] = lambda i_, s_, v, name, value, node: writes.append((v.expr, name, value))
+        table = VObj("TargetTable", {"properties": VList(["covalent_radius"])})
+        return [], {}, {"line": line, "fields": fields, "writes": writes, "kind": kind, "table": table}
+    return mk
+
+
+def _cov_post(st, interp, C, res):
+    fields, writes, kind = C["fields"], C["writes"], C["kind"]
+    if res.outcome == "raise":
+        st.oblige("never-raises", False, kind="raises", info={"exc": res.exc})
+        return
+    if kind == "alternate":
+        st.oblige("post.rows of alternate spin states ('-') write nothing: the first listed state stays", z3.BoolVal(len(writes) == 0))
+        return
+    el = KC.TT_EL(z3.StrToInt(fields[0]))
+    r = [val for (a, n, val) in writes if n == "covalent_radius" and z3.eq(z3.simplify(a), z3.simplify(el))]
+    dr = [val for (a, n, val) in writes if n == "covalent_radius_uncertainty" and z3.eq(z3.simplify(a), z3.simplify(el))]
+    st.oblige("post.radius and uncertainty are stored once each, on element Z of the row", z3.BoolVal(len(r) == 1 and len(dr) == 1 and len(writes) == 2))
+    if len(r) != 1 or len(dr) != 1:
+        return
+    st.oblige("post.covalent_radius is the number in column 3", spec.eq_goal(interp, st, r[0], FLOAT_OF_STR(fields[2])))
+    want = FLOAT_OF_STR(fields[3]) * z3.RealVal("0.01") if kind == "full" else z3.RealVal(0)
+    st.oblige("post.uncertainty is column 4 in units of 0.01 angstrom (0 when the row has none)", spec.eq_goal(interp, st, dr[0], want))
+
+
+def _cov_unit(kind):
+    holder = {}
+
+    def mk(st, interp):
+        args, kw, C = _cov_inputs(kind)(st, interp)
+        holder.clear()
+        holder.update({"line": C["line"], "table": C["table"]})
+        return [], {}, C
+    return Unit("covalent_radius.init::row loop[%s row]" % kind, COV + ".init::loop#1", mk, _cov_post, closure=lambda interp: [holder],
+                contracts={"TargetTable.__getitem__": KC.c_tt_getitem}, replay={"module": "c20", "task": "replay"})
+
+
+U_COVALENT_ROW = [_cov_unit(k) for k in ("full", "short", "alternate")]
+
+
+# ==============================================================================  C06: density.init, element loop (loop 1)
+
+DENSM = "periodictable.density"
+
+
+def c_table_getattr_symbol(interp, st, args, kw):
+    """getattr(table, k): the element whose symbol is k"""
+    return ATOMS.sym(st, KC.TT_BY_SYMBOL(args[1] if not isinstance(args[1], str) else z3.StringVal(args[1])))
+
+
+def _dens_inputs(kind):
+    def mk(st, interp):
+        use_state(st)
+        k = st.fresh("symbol", z3.StringSort())
+        dv = st.fresh("density_value", z3.RealSort())
+        cav = st.fresh("caveat", z3.StringSort())
+        v = {"number": dv, "with caveat": VTuple([dv, cav]), "unavailable": None}[kind]
+        writes = []
+        st.ghost["atom_setattr"] = lambda i_, s_, a, name, value, node: writes.append((a.expr, name, value))
+        table = VObj("TargetTable", {"properties": VList(["density"])})
+        return [], {}, {"k": k, "v": v, "dv": dv, "cav": cav, "kind": kind, "writes": writes, "table": table}
+    return mk
+
+
+def _dens_post(st, interp, C, res):
+    if res.outcome == "raise":
+        st.oblige("never-raises", False, kind="raises", info={"exc": res.exc})
+        return
+    writes, kind = C["writes"], C["kind"]
+    el = KC.TT_BY_SYMBOL(C["k"])
+    d = [val for (a, n, val) in writes if n == "_density" and z3.eq(z3.simplify(a), z3.simplify(el))]
+    c = [val for (a, n, val) in writes if n == "density_caveat" and z3.eq(z3.simplify(a), z3.simplify(el))]
+    st.oblige("post.density and caveat are stored once each, on the element the key names", z3.BoolVal(len(d) == 1 and len(c) == 1 and len(writes) == 2))
+    if len(d) != 1 or len(c) != 1:
+        return
+    if kind == "unavailable":
+        st.oblige("post.None stays None, with caveat 'unavailable'", z3.BoolVal(d[0] is None and c[0] == "unavailable"))
+    else:
+        st.oblige("post._density is the table value", spec.eq_goal(interp, st, d[0], C["dv"]))
+        st.oblige("post.the caveat is the table's (empty when there is none)",
+                  spec.eq_goal(interp, st, c[0], C["cav"]) if kind == "with caveat" else z3.BoolVal(c[0] == ""))
+
+
+def _dens_unit(kind):
+    holder = {}
+
+    def mk(st, interp):
+        args, kw, C = _dens_inputs(kind)(st, interp)
+        holder.clear()
+        holder.update({"k": C["k"], "v": C["v"], "table": C["table"]})
+        return [], {}, C
+    return Unit("density.init::element loop[%s]" % kind, DENSM + ".init::loop#1", mk, _dens_post, closure=lambda interp: [holder],
+                contracts={"TargetTable.__getattr__": c_table_getattr_symbol, "getattr": None} if False else {"TargetTable.__getattr__": c_table_getattr_symbol},
+                replay={"module": "c06", "task": "replay"})
+
+
+U_DENSITY_ROW = [_dens_unit(k) for k in ("number", "with caveat", "unavailable")]
+
+
+# ==============================================================================  C20: crystal_structure.init (loop 1), xsf.init_spectral_lines (loop 1)
+
+CRYS = "periodictable.crystal_structure"
+
+
+def _crys_inputs(kind):
+    def mk(st, interp):
+        use_state(st)
+        Z = st.fresh("Z", z3.IntSort())
+        st.assume(Z >= 0)
+        struct = VDict([["symmetry", st.fresh("symmetry", z3.StringSort())], ["a", st.fresh("a", z3.RealSort())]]) if kind == "entry" else None
+        writes = []
+        st.ghost["atom_setattr"] = lambda i_, s_, v, name, value, node: writes.append((v.expr, name, value))
+        table = VObj("TargetTable", {"properties": VList(["crystal_structure"])})
+        return [], {}, {"Z": Z, "struct": struct, "writes": writes, "table": table, "kind": kind}
+    return mk
+
+
+def _crys_post(st, interp, C, res):
+    if res.outcome == "raise":
+        st.oblige("never-raises", False, kind="raises", info={"exc": res.exc})
+        return
+    writes, struct = C["writes"], C["struct"]
+    el = KC.TT_EL(C["Z"])
+    w = [val for (a, n, val) in writes if n == "crystal_structure" and z3.eq(z3.simplify(a), z3.simplify(el))]
+    st.oblige("post.one write, on element Z (the position in the list)", z3.BoolVal(len(w) == 1 and len(writes) == 1))
+    if len(w) != 1:
+        return
+    if struct is None:
+        st.oblige("post.no entry stays None", z3.BoolVal(w[0] is None))
+        return
+    v = w[0]
+    ok = isinstance(v, VDict) and len(v.entries) == len(struct.entries)
+    st.oblige("post.the element gets a dictionary with the entry's fields", z3.BoolVal(ok))
+    if ok:
+        st.oblige("post.same keys and values as the embedded entry",
+                  z3.And([z3.BoolVal(k1 == k2) if isinstance(k1, str) else k1 == k2 for (k1, _), (k2, _) in zip(v.entries, struct.entries)]
+                         + [spec.eq_goal(interp, st, a, b) for (_, a), (_, b) in zip(v.entries, struct.entries)]))
+        st.oblige("post.its OWN dictionary (editing it must not reach the embedded data or another table)", z3.BoolVal(v is not struct))
+
+
+def _crys_unit(kind):
+    holder = {}
+
+    def mk(st, interp):
+        args, kw, C = _crys_inputs(kind)(st, interp)
+        holder.clear()
+        holder.update({"Z": C["Z"], "struct": C["struct"], "table": C["table"]})
+        return [], {}, C
+    return Unit("crystal_structure.init::element loop[%s]" % kind, CRYS + ".init::loop#1", mk, _crys_post, closure=lambda interp: [holder],
+                contracts={"TargetTable.__getitem__": KC.c_tt_getitem}, replay={"module": "c20", "task": "replay"})
+
+
+U_CRYSTAL_ROW = [_crys_unit(k) for k in ("entry", "no entry")]
+
+XSFM = "periodictable.xsf"
+
+
+def c_table_symbol_stub(interp, st, args, kw):
+    s = args[1] if not isinstance(args[1], str) else z3.StringVal(args[1])
+    return ATOMS.sym(st, KC.TT_BY_SYMBOL(s))
+
+
+def _lines_inputs(st, interp):
+    use_state(st)
+    row = st.fresh("row", z3.StringSort())
+    f = [st.fresh("field%d" % i, z3.StringSort()) for i in range(3)]
+
+    def split(interp_, st_, s, args):
+        if z3.eq(s, row) and not args:
+            return VList(list(f))
+        raise Unsupported("split of an unexpected string")
+    st.ghost["str_split"] = split
+    writes = []
+    st.ghost["atom_setattr"] = lambda i_, s_, v, name, value, node: writes.append((v.expr, name, value))
+    table = VObj("TargetTable", {"properties": VList([])})
+    return [], {}, {"row": row, "f": f, "writes": writes, "table": table}
+
+
+def _lines_post(st, interp, C, res):
+    if res.outcome == "raise":
+        st.oblige("never-raises", False, kind="raises", info={"exc": res.exc})
+        return
+    f, writes = C["f"], C["writes"]
+    el = KC.TT_BY_SYMBOL(f[0])
+    ka = [val for (a, n, val) in writes if n == "K_alpha" and z3.eq(z3.simplify(a), z3.simplify(el))]
+    kb = [val for (a, n, val) in writes if n == "K_beta1" and z3.eq(z3.simplify(a), z3.simplify(el))]
+    st.oblige("post.K_alpha and K_beta1 are stored once each on the element named in column 1", z3.BoolVal(len(ka) == 1 and len(kb) == 1 and len(writes) == 2))
+    if len(ka) == 1 and len(kb) == 1:
+        st.oblige("post.K_alpha is column 2", spec.eq_goal(interp, st, ka[0], FLOAT_OF_STR(f[1])))
+        st.oblige("post.K_beta1 is column 3", spec.eq_goal(interp, st, kb[0], FLOAT_OF_STR(f[2])))
+
+
+def _lines_unit():
+    holder = {}
+
+    def mk(st, interp):
+        args, kw, C = _lines_inputs(st, interp)
+        holder.clear()
+        holder.update({"row": C["row"], "table": C["table"]})
+        return [], {}, C
+    return Unit("xsf.init_spectral_lines::row loop", XSFM + ".init_spectral_lines::loop#1", mk, _lines_post, closure=lambda interp: [holder],
+                contracts={"TargetTable.symbol": c_table_symbol_stub}, replay={"module": "c20", "task": "replay"})
+
+
+U_SPECTRAL_ROW = _lines_unit()
